@@ -1,7 +1,8 @@
-// Stand-alone observation for C03 (split independence), found by reading the
-// code while strengthening the C03 harness; it is OUTSIDE the space the check
-// enumerates (the check uses shortest-form integers under a max string length),
-// so `./check C03` does not report it. Fails on the pinned tree.
+// Stand-alone reproduction of the C03 finding (split independence) on the
+// pinned tree, reported by `./check C03 quick` (part max-string-length-boundary,
+// padded sub-part) as
+//
+//	C03/outcome-differs/single-write-ok/padded-integers
 //
 // Overlay this file into /repo/http2/hpack (exported API only):
 //
@@ -19,8 +20,10 @@
 // than 2*(127+8) = 270 octets pending and Write returns ErrStringLength. The
 // same holds for every maxStrLen >= 127. Severity is low (a peer that pads
 // its length integers and a max string length close to the actual strings).
-// A bound of 2*(maxStrLen+10)+1 (or dropping the redundant check: readString
-// already rejects over-long strings before buffering them) removes it.
+// Candidate fix: `const varIntOverhead = 11` (10 octets per length integer plus
+// the representation's first octet, rounded up): the longest pending tail of an
+// acceptable literal is 1+10+n+10+n-1 = 2n+20 <= 2*(n+11). With it the check is
+// quiet over the whole quick space and ./http2/hpack, ./http2 tests pass.
 package hpack
 
 import (
